@@ -76,10 +76,13 @@ def make_variant(a, variant):
         return a[::-1].copy()[::-1]
     if variant == "f4":
         if a.dtype.names is None and a.dtype.kind == "f" and a.dtype.itemsize == 8:
+            fin = a[np.isfinite(a) & (a != 0)]
+            if fin.size and (np.abs(fin).max() > 3e38 or np.abs(fin).min() < 1e-37):
+                return None           # not representable in single precision: not a float32 layout of the same values
             return a.astype("f4")
         return None
     if variant == "i8":
-        if a.dtype.names is None and a.dtype.kind == "f" and np.all(a == np.floor(a)):
+        if a.dtype.names is None and a.dtype.kind == "f" and np.all(np.isfinite(a)) and np.all(np.abs(a) < 9e18) and np.all(a == np.floor(a)):
             return a.astype("i8")
         if a.dtype.names is None and a.dtype.kind == "i" and a.dtype.itemsize != 8:
             return a.astype("i8")
@@ -523,6 +526,13 @@ def main(ctx):
               dict(a=bt), dict(delim=[","]))
     ospec("htm.intersect-scalars", lambda inclusive: hobj.intersect(10.0, 20.0, 1.0, inclusive=inclusive), dict(), dict(inclusive=BO))
 
+    # weights of extreme magnitude (a "robustness" rescaling must happen on a private copy), all error options
+    for sc in (1e160, 1e-160, 1e300, 5e-324 * 1e10):
+        wbig = ww * sc
+        ospec("stat.wmom(weights x %g)" % sc, lambda a, w, calcerr, sdev: stat.wmom(a, w, calcerr=calcerr, sdev=sdev), dict(a=xx, w=wbig), dict(calcerr=BO, sdev=BO))
+        ospec("stat.get_stats(weights x %g)" % sc, lambda a, w: stat.get_stats(a, weights=w), dict(a=xx, w=wbig), dict())
+        ospec("stat.histogram(weights x %g)" % sc, lambda a, w: stat.histogram(a, weights=w, binsize=1.0), dict(a=xx, w=wbig), dict())
+
     # ---------------------------------------------------------------- runner
     def one(case, rec):
         sname, target, variant = case
@@ -575,6 +585,52 @@ def main(ctx):
                                                    (list(arrays) if target == "*" else [target])):
                     continue
                 units.append((sname, target, variant))
+    # ---------------------------------------------------------------- long arguments, the same call twice
+    # work buffers kept between calls are sized by the input: above some length (harvested from the integer constants of
+    # the code under test, plus 200000) a function may keep what it was given - which for a native contiguous float64
+    # argument is the caller's own array - and overwrite it on the NEXT call of the same shape.  Every function is called
+    # twice with different long arguments of one shape; all arguments of both calls must be as they were.
+    from mc.longarr import harvested_sizes
+    import esutil.htm.htm as _hh
+    import esutil.stat.util as _su
+    LONGS = sorted({200000} | {b + 1 for b in harvested_sizes([C, nu, _hh, _su, wcsutil], lo=20000, hi=3000000)})[:6]
+    ctx.notes.append("long-arguments: lengths %r" % (LONGS,))
+    mlong = htm.Matcher(6, np.array([10.0, 11.0]), np.array([20.0, 21.0]))
+    wlong = wcsutil.WCS(dict(tan_header)) if "tan_header" in dir() else None
+    LSPECS = {
+        "Matcher.match": lambda a, b, r: mlong.match(a, b, r, maxmatch=1),
+        "Matcher.match(scalar radius)": lambda a, b, r: mlong.match(a, b, 0.01, maxmatch=1),
+        "htm.match": lambda a, b, r: hobj.match(a[:1000], b[:1000], a, b, 0.001, maxmatch=1),
+        "coords.sphdist": lambda a, b, r: C.sphdist(a, b, b, r),
+        "coords.eq2gal": lambda a, b, r: C.eq2gal(a, b),
+        "coords.eq2sdss": lambda a, b, r: C.eq2sdss(a, b),
+        "stat.histogram(weights)": lambda a, b, r: stat.histogram(a, weights=r, binsize=30.0),
+        "stat.wmom": lambda a, b, r: stat.wmom(a, r, calcerr=True),
+        "numpy_util.match": lambda a, b, r: nu.match(np.arange(a.size), np.arange(a.size)[::7]),
+        "htm.lookup_id": lambda a, b, r: hobj.lookup_id(a, b),
+    }
+
+    def one_long2(case, rec):
+        fname, n = case
+        f = LSPECS[fname]
+
+        def mk(k):
+            i = np.arange(n, dtype="f8")
+            return ((i * 0.618 + k) % 360.0, ((i * 0.37 + 3 * k) % 160.0) - 80.0, 0.001 + ((i + k) % 7) * 1e-4)
+        first, second = mk(0), mk(1)
+        keep = [a.copy() for a in first + second]
+        try:
+            f(*first)
+            f(*second)
+        except Exception as e:
+            return rec.fail(case, "%s on %d elements raised %s: %s" % (fname, n, type(e).__name__, str(e)[:120]))
+        for k, (a, k0) in enumerate(zip(first + second, keep)):
+            if a.tobytes() != k0.tobytes():
+                return rec.fail(case, "%s on %d elements, called twice: argument %d of the %s call was modified" % (fname, n, k % 3, "first" if k < 3 else "second"))
+        rec.ok(case, outcome="long2:%s" % fname, nontrivial=True, calls=2)
+
+    ctx.lattice("long-arguments-two-calls", [(fn_, n) for fn_ in LSPECS for n in LONGS], one_long2, bounds=dict(functions=sorted(LSPECS), lengths=LONGS))
+
     ctx.quiet_workers = True
     ctx.lattice("no-modification", units, one, bounds=dict(specs=len(SPECS), variants=VARIANTS))
     ctx.notes.append("call specifications: " + ", ".join(sorted(SPECS)))
